@@ -10,11 +10,12 @@
 (* The spec fixes WHAT is hashed, signed and compared and in which order the code   *)
 (* does it; it does not claim the primitives are secure.                            *)
 (*                                                                                 *)
-(* One client, one server, MaxRekey re-exchanges.  The first exchange is in clear:  *)
-(* the attacker may replace exactly one field of what the server sends (host key    *)
-(* blob K_S, public value f / Q_S, signature bytes, signature algorithm name, and   *)
-(* for group exchange the group) before the client reads it.  Re-exchanges travel   *)
-(* inside the encrypted packet layer (C02) and are not altered here.                *)
+(* One client, one server, MaxRekey re-exchanges.  In ANY one exchange - the first, *)
+(* which is in clear, or a re-exchange, where the fault sits at the source (a        *)
+(* faulty or impersonated server end) - exactly one field of the server's reply as   *)
+(* the client reads it differs from the honest one: host key blob K_S, public value  *)
+(* f / Q_S, signature (bytes, other data, other key), signature algorithm name; for  *)
+(* group exchange also the group of the first exchange.                              *)
 (*                                                                                 *)
 (* Actions are the code's decision points:                                          *)
 (*   ClientStartKex   start_kex(): fresh x, send e = Pub(x)            (client)     *)
@@ -29,7 +30,7 @@ CONSTANTS MaxRekey,   \* re-exchanges explored
           Fields,     \* what the attacker may alter: subset of AllFields
           Gex,        \* TRUE: group exchange (the server chooses the group, it is hashed)
           Mut         \* "none" | seeded design error (sensitivity): "skip_verify", "sid_overwrite",
-                      \* "verify_before_hash_binding", "ignore_sig_alg"
+                      \* "verify_before_hash_binding", "ignore_sig_alg", "verify_only_new_key"
 
 AllFields == {"hostkey", "pub", "sig", "sigalg", "group"}
 HostAlg   == "alg"                      \* the negotiated host-key signature algorithm (C05 decides it)
@@ -60,14 +61,15 @@ VARIABLES n,          \* index of the current exchange (0 = first)
           cgrp,       \* group the client uses (as delivered to it)
           net,        \* what is in flight to the client: NoNet or [ks, f, sig, alg]
           cK, cH, cSid, cShown, cSig,
+          cHostKey,   \* Transport.host_key: the key stored by the last successful _verify_key
           sK, sH, sSid,
           altered,    \* fields altered in the current exchange
           attacked,   \* the attacker has used its one edit
           first       \* ghost: <<H of the client's first exchange, H of the server's first exchange>>
-vars == <<n, cst, sst, ce, cgrp, net, cK, cH, cSid, cShown, cSig, sK, sH, sSid, altered, attacked, first>>
+vars == <<n, cst, sst, ce, cgrp, net, cK, cH, cSid, cShown, cSig, cHostKey, sK, sH, sSid, altered, attacked, first>>
 
 Init == /\ n = 0 /\ cst = "idle" /\ sst = "idle" /\ ce = None /\ cgrp = HonestGroup /\ net = NoNet
-        /\ cK = None /\ cH = None /\ cSid = None /\ cShown = None /\ cSig = None
+        /\ cK = None /\ cH = None /\ cSid = None /\ cShown = None /\ cSig = None /\ cHostKey = None
         /\ sK = None /\ sH = None /\ sSid = None
         /\ altered = {} /\ attacked = FALSE /\ first = <<None, None>>
 
@@ -81,7 +83,7 @@ ClientStartKex ==
          /\ altered' = IF g # HonestGroup THEN {"group"} ELSE {}
          /\ attacked' = (attacked \/ g # HonestGroup)
     /\ cst' = "init_sent"
-    /\ UNCHANGED <<n, sst, net, cK, cH, cSid, cShown, cSig, sK, sH, sSid, first>>
+    /\ UNCHANGED <<n, sst, net, cK, cH, cSid, cShown, cSig, cHostKey, sK, sH, sSid, first>>
 
 SetSid(old, h) == IF old = None \/ Mut = "sid_overwrite" THEN h ELSE old    \* Transport._set_K_H
 
@@ -94,17 +96,17 @@ ServerReply ==
            /\ first' = IF n = 0 THEN <<first[1], h>> ELSE first
            /\ net' = [ks |-> Pk(ServerKey), f |-> f, sig |-> Sig(ServerKey, HostAlg, h), alg |-> HostAlg]
     /\ sst' = "replied"
-    /\ UNCHANGED <<n, cst, ce, cgrp, cK, cH, cSid, cShown, cSig, altered, attacked>>
+    /\ UNCHANGED <<n, cst, ce, cgrp, cK, cH, cSid, cShown, cSig, cHostKey, altered, attacked>>
 
 (* exactly one field gets a different VALUE (not merely another encoding) *)
 Alter(fld) ==
-    /\ n = 0 /\ ~attacked /\ net # NoNet /\ cst = "init_sent" /\ fld \in Fields \ {"group"}
+    /\ ~attacked /\ net # NoNet /\ cst = "init_sent" /\ fld \in Fields \ {"group"}
     /\ net' = CASE fld = "hostkey" -> [net EXCEPT !.ks = Pk(AttackerKey)]
                 [] fld = "pub"     -> [net EXCEPT !.f = Pub(Sec("a", 0), HonestGroup)]
                 [] fld = "sig"     -> [net EXCEPT !.sig = Sig("nobody", HostAlg, sH)]
                 [] fld = "sigalg"  -> [net EXCEPT !.alg = "alg2"]      \* the blob now names another algorithm
     /\ altered' = altered \cup {fld} /\ attacked' = TRUE
-    /\ UNCHANGED <<n, cst, sst, ce, cgrp, cK, cH, cSid, cShown, cSig, sK, sH, sSid, first>>
+    /\ UNCHANGED <<n, cst, sst, ce, cgrp, cK, cH, cSid, cShown, cSig, cHostKey, sK, sH, sSid, first>>
 
 ClientSetKH ==
     /\ cst = "init_sent" /\ net # NoNet
@@ -114,23 +116,28 @@ ClientSetKH ==
            /\ first' = IF n = 0 THEN <<h, first[2]>> ELSE first
     /\ cShown' = net.ks /\ cSig' = net.sig
     /\ cst' = "kh_set"
-    /\ UNCHANGED <<n, sst, ce, cgrp, net, sK, sH, sSid, altered, attacked>>
+    /\ UNCHANGED <<n, sst, ce, cgrp, net, cHostKey, sK, sH, sSid, altered, attacked>>
 
 (* the relabelled signature is a signature made with HostAlg whose blob claims net.alg; verification under  *)
 (* the negotiated algorithm must fail for it                                                              *)
 SigChecks == /\ (Mut = "ignore_sig_alg" \/ net.alg = HostAlg)
              /\ Verify(cShown, HostAlg, cSig, IF Mut = "verify_before_hash_binding" THEN sH ELSE cH)
 
+\* seeded error "verify_only_new_key": the checks run only when the shown blob is not the stored host key
+Passes == \/ Mut = "skip_verify"
+          \/ (Mut = "verify_only_new_key" /\ cHostKey = cShown)
+          \/ SigChecks
 ClientVerifyKey ==
     /\ cst = "kh_set"
-    /\ cst' = IF Mut = "skip_verify" \/ SigChecks THEN "done" ELSE "aborted"
+    /\ cst' = IF Passes THEN "done" ELSE "aborted"
+    /\ cHostKey' = IF Passes THEN cShown ELSE cHostKey
     /\ net' = NoNet
     /\ UNCHANGED <<n, sst, ce, cgrp, cK, cH, cSid, cShown, cSig, sK, sH, sSid, altered, attacked, first>>
 
 Rekey ==
     /\ cst = "done" /\ sst = "replied" /\ n < MaxRekey
     /\ n' = n + 1 /\ cst' = "idle" /\ sst' = "idle" /\ altered' = {} /\ cgrp' = HonestGroup
-    /\ UNCHANGED <<ce, net, cK, cH, cSid, cShown, cSig, sK, sH, sSid, attacked, first>>
+    /\ UNCHANGED <<ce, net, cK, cH, cSid, cShown, cSig, cHostKey, sK, sH, sSid, attacked, first>>
 
 Next == ClientStartKex \/ ServerReply \/ (\E f \in Fields : Alter(f)) \/ ClientSetKH \/ ClientVerifyKey \/ Rekey
 Spec == Init /\ [][Next]_vars
@@ -144,7 +151,8 @@ SidP(sid, firstH)                   == sid = firstH
 AbortP(isAltered, accepted)         == isAltered => ~accepted
 
 Agreement        == AgreeP(cst = "done", cK, sK, cH, sH, cst = "done" /\ Verify(cShown, HostAlg, cSig, cH))
-HostKeyAuthentic == cst = "done" => cShown = Pk(ServerKey)
+\* after EVERY finished exchange the shown and the stored host key are the server's
+HostKeyAuthentic == cst = "done" => cShown = Pk(ServerKey) /\ cHostKey = Pk(ServerKey)
 SessionIdFixed   == /\ (cSid # None => SidP(cSid, first[1]))
                     /\ (sSid # None => SidP(sSid, first[2]))
 SidNeverChanges  == [][(cSid # None => cSid' = cSid) /\ (sSid # None => sSid' = sSid)]_vars
